@@ -6,7 +6,7 @@ V = os.path.dirname(os.path.dirname(os.path.abspath(__file__)))
 CLAIMED = {
     "C01": dict(
         text="Executable Lean 4 model of the RPU parser and writer (lean/DoviModel/Model/Rpu.lean, RpuWrite.lean, transliterated separately from the Rust parse and write functions) with kernel-checked theorems about it; the model is tied to the real code on every run by running both on the same structured, mutated and prefixed RPUs (parse JSON and unmodified write, raw and NAL entry points) and the property itself is evaluated directly on the real code for every case (write(parse x) in {x, error}).",
-        note="Trusted: Lean kernel, the correspondence harness, the independent encoder used as generator. Hypothesis named in the theorems: se(v) code numbers < 2^53 (third-party get_se goes through f64). CLI-level clause is covered by C05/C09.",
+        note="Trusted: Lean kernel, the correspondence harness, the independent encoder used as generator. Hypothesis named in the theorems: se(v) code numbers < 2^53 (third-party get_se goes through f64). The write->parse theorem (C03.write_parse_sound) applies to every parse result inside RpuWf (counted in the evidence); the exact inverse direction write(parse x) = x is under proof (Proofs/Pw*.lean) and until then rests on write_unmodified_crc + correspondence + the direct oracle on every generated input. The CLI-level clause is checked directly (editor {} on RPU files at chunk sizes dividing the file size) and by C05/C09.",
         design="DESIGN.md section 7 C01",
         technique="Lean 4 proof over a hand-written model + differential model/implementation correspondence + direct oracle"),
     "C02": dict(
@@ -26,7 +26,7 @@ CLAIMED = {
         technique="Lean 4 proof (arithmetic of the two-group code) + per-size model/implementation digest + exhaustive direct oracle"),
     "C03": dict(
         text="Random sequences of public operations (conversions, crops, offsets, source PQ, scene cut, mapping/CM v4.0 removal, block add/replace/remove with full-integer-range values, level copy) are applied to structured RPUs by the Lean model (Model/Ops.lean, RpuWrite.lean) and by the real code; the written bytes are re-parsed by the real parser and by the model parser and compared field for field with the in-memory structure; CRC/terminator recomputed independently. Lean theorems: the written tail is crc32(body) ++ 0x80 ++ trailing zeros; out-of-range values, invalid blocks and invalid RPUs are never written.",
-        note="Trusted: Lean kernel, harness, generator. Known findings F13-F16 (documented in known_findings.json) are matched by shape. The whole-RPU write/parse soundness theorem is stated in DESIGN.md and proved for the primitives and the tail so far.",
+        note="Trusted: Lean kernel, harness, generator. Known findings F13-F16 (documented in known_findings.json) are matched by shape. The whole-RPU write->parse theorem C03.write_parse_sound is proved (unbounded; header, mapping/NLQ, DM data, containers, blocks, alignment, CRC, terminator, trailing zeros) for structures satisfying the decidable shape predicate RpuWf; the driver evaluates that predicate on every structure the check reaches and the evidence reports how many lie inside the theorem (the rest are decided by correspondence and direct oracles only).",
         design="DESIGN.md section 7 C03",
         technique="Lean 4 proof over the writer model + model/implementation correspondence on operation sequences + re-parse oracle"),
     "C04": dict(
